@@ -1,11 +1,11 @@
 package props
 
 import (
-	"strings"
-	"math"
 	"fmt"
+	"math"
 	"math/rand"
 	"sort"
+	"strings"
 
 	"github.com/tobgu/qframe"
 	"github.com/tobgu/qframe/config/newqf"
@@ -156,8 +156,13 @@ func c08New(c *fw.Case) {
 	if rng.Intn(6) == 0 {
 		rows = 0
 	}
+	long := c.No%300 == 44
+	if long {
+		// long columns, constant ones among them (a constant may be laid out block by block)
+		rows = []int{1024, 1025, 1500, 2500, 4097, 5000}[rng.Intn(6)]
+	}
 	f := model.GenFrame(rng, model.GenOpts{Rows: rows, MinCols: 0, MaxCols: 6, Names: oddNames})
-	if rng.Intn(4) == 0 {
+	if rng.Intn(4) == 0 || long {
 		// constant columns exercise Const*
 		for _, col := range f.Cols {
 			if col.Kind == model.KFloat && col.Len() > 0 && rng.Intn(4) == 0 {
@@ -625,6 +630,7 @@ func c08Project(c *fw.Case) {
 			check(fmt.Sprintf("Copy(%q, %q)", "second-new-column", src2), true, want2, func() qframe.QFrame { return root.QF.Copy("second-new-column", src2) })
 		}
 		check(fmt.Sprintf("Copy(%q, %q)", "newcol", "no-such-column"), false, nil, func() qframe.QFrame { return root.QF.Copy("newcol", "no-such-column") })
+		check(fmt.Sprintf("Copy(%q, %q)", "no-such-column", "no-such-column"), false, nil, func() qframe.QFrame { return root.QF.Copy("no-such-column", "no-such-column") })
 		illegal := []string{"", "\"q\"", "'q'", "$d"}[rng.Intn(4)]
 		check(fmt.Sprintf("Copy(%q, %q)", illegal, src), false, nil, func() qframe.QFrame { return root.QF.Copy(illegal, src) })
 	}
